@@ -106,6 +106,23 @@ def run_case(case):
         new_ss, out = sup.step(ss)
         f, ss = G.step(f, new_ss, out)
     verdict("step_with_own_result_vs_step", e2, f)
+    # rollout started from a state whose step counter is not 0: max_steps is a NUMBER of steps, not an end index
+    if n >= 2:
+        k1 = rnd.randint(1, n - 1)
+        r1 = jax.jit(lambda g: G.rollout(g, max_steps=k1, carry_only=True))(gs0)
+        r2 = jax.jit(lambda g: G.rollout(g, max_steps=n - k1, carry_only=True))(r1)
+        verdict("rollout_then_rollout_vs_run", a, r2, extra=dict(first=k1, second=n - k1))
+        r3 = jax.jit(lambda g: G.rollout(g, max_steps=n - k1, carry_only=False))(r1)
+        verdict("rollout_full_from_nonzero_step_vs_run", a, jax.tree_util.tree_map(lambda x: x[-1], r3))
+        if N >= 3:
+            s0_ = rnd.randint(1, N - 2)
+            m_ = min(2, N - s0_)
+            gl = G.init(key0, starting_eps=eps, starting_step=s0_)
+            x1 = gl
+            for _ in range(m_):
+                x1 = run_j(x1)
+            x2 = jax.jit(lambda g: G.rollout(g, max_steps=m_, carry_only=True))(gl)
+            verdict("rollout_after_late_start_vs_run", x1, x2, extra=dict(starting_step=s0_, steps=m_))
     # rollout default length == run^max_steps
     if N <= 8:
         full = jax.jit(G.rollout)(gs0)
@@ -178,6 +195,20 @@ def run_case(case):
         if int(q1.state[ov_name].h) == int(rb.state[ov_name].h):
             items.append(dict(status="violated", key=f"{dg}/{mode}/{prune}/override_not_seen_by_steps", nontrivial=True,
                               witness=dict(mechanism="override_not_seen_by_steps", node=ov_name, spec=spec)))
+    # a FALSY params override (a bare scalar 0) is still an override
+    try:
+        sp_nodes, sp_sup = S.build(spec, trace="none", node_cls=W.ScalarParamWitness)
+        cg2 = cg
+        G2 = C.build_compiled(sp_nodes, sp_sup, cg2, mode=mode, prune=prune)
+        z = G2.init(k1, params={ov_name: jnp.int32(0)}, starting_eps=eps)
+        counters["falsy_overrides_checked"] += 1
+        if int(z.params[ov_name]) != 0:
+            items.append(dict(status="violated", key=f"{dg}/{mode}/{prune}/falsy_params_override_ignored", nontrivial=True,
+                              witness=dict(mechanism="falsy_params_override_ignored", got=int(z.params[ov_name]), given=0, node=ov_name, spec=spec)))
+        else:
+            items.append(dict(status="held", key=f"{dg}/{mode}/{prune}/falsy_params_override", nontrivial=True))
+    except C.Rejected:
+        pass
     # order argument of init: nodes listed in order are initialised first; result must not depend on it for constant inits except rng split
     samples.append(dict(spec_digest=dg, mode=mode, prune=prune, episodes=n_eps, max_steps=N, n=n, eps=eps, identities=counters["identities_checked"]))
     return dict(items=items, counters=dict(counters), samples=samples)
